@@ -317,7 +317,8 @@ static void oneCase(vh::Rng& g, long caseNo, int type, bool wantModel, bool want
             const double ep = mp ? maxAbs(ci.c.getPositionErrorsAsVector(M.state)) : 0.0;
             const double ev = maxAbs(ci.c.getVelocityErrorsAsVector(M.state));
             const double bq = maxAbs(M.state.getQ()), bu = maxAbs(M.state.getU());   // NaN fails every comparison below
-            if (ep < 1e-9 && ev < 1e-9 && bq < 1e3 && bu < 1e3) implChecks(M, ci, g, caseNo, udot, lambda, "onManifold");
+            if (nearEulerSingularity(M)) vh::D("skip.onManifold.nearEulerSingularity");
+            else if (ep < 1e-9 && ev < 1e-9 && bq < 1e3 && bu < 1e3) implChecks(M, ci, g, caseNo, udot, lambda, "onManifold");
         }
     }
 }
